@@ -140,7 +140,7 @@ impl Prop for C09 {
         ]
     }
     fn run_shard(&self, ctx: &mut Ctx<'_>) {
-        let n = ctx.budget(40_000, 1_000_000);
+        let n = ctx.budget(40_000, 5_000_000);
         for i in 0..n {
             if i % 16 == 0 && ctx.should_stop() {
                 break;
